@@ -72,7 +72,47 @@ CHECKS = {
    note="database/sql and the fake driver are atomic steps; statement.go's per-statement sync.Map is not a scheduling point; data races are not decided by this check (see C07)"),
 }
 
+
+# Extensions made after the independently seeded changes (DESIGN.md §8); appended to the level text.
+ADDED = {
+ "C01": "Extended: shortest template spellings ('?', '(?)') in every template-taking call (Table, Select, Where/Not/Or, Having, Joins, Clauses, Order), schema-less finishers (Table(t).Find(&[]map)/Count/Pluck/Take(&map)/Rows) with every named-argument form; alphabet now 73 clause calls x 41 finishers x 35 value classes; quick is a closed pairwise slice (every call x call and call x finisher pair, every value class at every slot), thorough the full product.",
+ "C02": "Extended: nested negation units, single-call groups around every raw spelling, raw strings whose text steers gorm's classification ('@' / '?' inside quoted literals with positional resp. named arguments), Scopes on a reused Session handle carrying 0-9 scopes with 2-3 derived chains in both execution orders.",
+ "C03": "Extended: 6 key configurations incl. composite (int,string) and (int,string,int64) keys with neighbour rows sharing every proper subset of the key, 76 field kinds (custom serializer kinds, pointer-to-zero values, anonymously embedded struct shadowed by an outer field), reads keyed by the destination's key / Where(pk) / First(&t,id) compared with the marker read, end-of-case aliasing check over all loaded records.",
+ "C04": "Extended: handle derivations inside blocks, block bodies that put an error on their own handle, calls on a handle whose Begin failed, nested blocks opened from an ancestor's handle still in scope, SavePoint/RollbackTo issued through different handles of one transaction, Row() reads inside blocks, and the check that every statement between BEGIN and COMMIT/ROLLBACK uses the transaction's connection; a panic the program did not throw is a violation.",
+ "C05": "Extended: 'harmless' derivations on the shared handle before the operation, a second fault kind (caller's context cancelled at hook/driver point k), result-set row faults (Recorder.RowFault at every row of every RETURNING result set), operations that fail by themselves while their rows are stepped (CHECK / partial UNIQUE violated by the 2nd row, 2nd child, 2nd batch), RETURNING variants of update/delete.",
+ "C06": "Extended: finishers executed directly on handles, a second model with the same Go field names on other columns, Select/Omit by field name, repeated-kind blocks for every pointer- or map-typed piece of statement state, association-selecting handles (Select/Omit of relations and nested paths) with Delete/Save/Create/Updates forks on SQLite, handles passed as the sole group condition of another chain, handles built from clause.Or/And, and a passive probe of the handle's exported statement state before every execution.",
+ "C07": "Extended: second owner of a shared schema (lock around the back-reference write), soft-delete model with a relation of its own joined at cold start (logical loss of the deleted_at filter, schedule-keyed finding), self-serializer field type (pooled scan values), sync.Pool Get/Put as scheduling points, frames of model callbacks transparent for race attribution.",
+ "C08": "Extended: soft-delete field shapes (pointer, embedded, prefixed, renamed), nested relation joins through soft-delete models, single-call groups around raw spellings, classification-steering raw strings, non-fresh destinations re-read after a soft delete (Preload/Joins/First into structs and slices primed by an earlier or Unscoped load), key in the Model() value of Delete/Update.",
+ "C09": "Extended: zero-key slice/array models, reuse of a handle that already ran a finisher, Returning/Locking clause calls, finishers whose only condition is the key of the Model() value (Model(&T{ID:1}).Delete(&T{}) / Updates(map) / UpdateColumns(map)).",
+ "C10": "Extended: supplied update-time values asserted, key-spelling differential, embedded/overriding/patch-struct model shapes, multi-batch CreateInBatches under Select/Omit, composite-primary-key family (2 and 3 key columns, full cross product of key values) over 16 targeting forms incl. slice models, Save/upsert of an absent key.",
+ "C11": "Extended: duplicate parents, prefilled destinations, reusable Session handle that already carries a Preload, cursor faults (one injected failure at every row of every query of the loading operation: the call reports an error or attaches complete children), relations whose referenced key is a non-primary column declared through tags (has-one/has-many/belongs-to references:Code, polymorphic foreignKey:Code, many2many with join references) with codes that collide textually with ids; zero-key records are compared (must be empty) unless the reference join owns rows for them.",
+ "C12": "Extended: foreign polymorphic owner with the same id, new/stored/new value lists, several target arguments with overlapping slices.",
+ "C13": "Extended: belongs-to records shared by several parents of one slice, handle-derivation preludes, 18 models implementing exactly one hook / all but one hook, AfterFind failures at every batch and record of FindInBatches (error returned, no later batch read, batch function not called for the failing batch).",
+ "C14": "Extended: finalisation phase (Close of every cache under the scheduler), sticky ErrBadConn and Prepare-failure environment choices, pool-level prepare counts, leak detection of driver statements; a -race pass over the same schedules.",
+ "C15": "Extended: reads on reusable handles, read pairs and chained reads, cursor faults (one injected failure at every (query,row) point each read path consults: error reported or result identical to the fault-free one), Or-chains (Where(a).Or(b), Or(a), Where(a).Or(b).Where(c), Not(a).Or(b), grouped) for every read path with a hard cap on FindInBatches batches, self-serializing map and pointer fields compared across struct/map/Pluck paths.",
+ "C16": "Extended: pointer-to-struct forms of conditions/Attrs/Assign, Session/WithContext at every position, Or/Not/grouped conditions on FirstOrInit/FirstOrCreate on both models, every writing FirstOrCreate repeated identically (must find its own row), Save on a model with a non-idempotent BeforeSave hook (stored value is hook(value)).",
+ "C17": "Extended: unstable-sort and remove-marker shapes, isolation (after every step the pipelines of a DB opened with its own Config and of one opened with the first DB's *Config are unchanged; Session/WithContext/Debug handles share the manager), every Register-family call re-run in all spellings (Before(x).After(y), After(y).Before(x), with Match) with identical outcome.",
+ "C18": "Extended: handle derivation histories, the RETURNING/scan executor branch of every write finisher (Create/Update/Updates/UpdateColumn(s)/Delete with clause.Returning) on both dialectors, with SkipDefaultTransaction, under every context configuration.",
+ "C19": "Extended: explicit Returning clauses, batching/transaction finishers, logger dimension, pre-filled destinations, write-step comparison, a model with integer tracked-time / serializer / default / pointer fields whose bound values are compared with their Go type, receivers of ToSQL / Session{DryRun} that already carry a chain prefix; quick is a closed pairwise slice.",
+ "C20": "Extended: config flags DisableForeignKeyConstraintWhenMigrating / IgnoreRelationshipsWhenMigrating as a history dimension, a model with a relation, every constraint and index the model declares (read independently from the tag text: blanks, case, index:name,unique/where/sort/collate/priority, composite names) must exist with its options (PRAGMA index_list/index_xinfo, sqlite_master) and be enforced (duplicate probe, two-sided partial-index probe) after each migration.",
+}
+
+def finding_counts():
+    d = json.load(open(os.path.join(ROOT, "known_findings.json")))
+    out = {}
+    for f in d["findings"]:
+        o = out.setdefault(f["property"], [0, 0])
+        o[0 if f.get("status") == "open" else 1] += 1
+    return out
+
+def clean_note(note):
+    # static finding counts in the notes are replaced by counts computed from known_findings.json
+    segs = [x.strip() for x in note.split(";")]
+    segs = [x for x in segs if "known finding" not in x and "fixed in /repo" not in x]
+    return "; ".join(segs)
+
 def main():
+    fc = finding_counts()
     checks = []
     for pid in ALL:
         c = CHECKS.get(pid)
@@ -85,8 +125,8 @@ def main():
             "evidence_file": "/verif/evidence/%s.json" % pid,
             "replay_cmd_template": "./check %s --replay {path}" % pid,
             "engine": c["engine"],
-            "level_claimed": {"category": c["cat"], "text": c["text"], "design_ref": "DESIGN.md §3 " + pid},
-            "level_note": c["note"],
+            "level_claimed": {"category": c["cat"], "text": c["text"] + (" " + ADDED[pid] if pid in ADDED else "") + " (Counts in this text are indicative; every run writes the actual numbers to the evidence file.)", "design_ref": "DESIGN.md §3 " + pid + ", §8"},
+            "level_note": clean_note(c["note"]) + "; known findings of the unchanged tree for this property: %d open, %d repaired by fix: commits in /repo (known_findings.json)" % tuple(fc.get(pid, [0, 0])),
             "technique": c["tech"],
         })
     claimed = {c["property_id"] for c in checks}
